@@ -382,8 +382,8 @@ func c25Responder(p rt.Params, rep *rt.Reporter, ci int) {
 	// teardown: lift the stall first so that everything parked on it drains
 	w.Fab.Link(R.ID, S.ID).Unstall()
 	apiCancel()
+	w.Close() // also ends API calls that wait on a blocked manager (they only give up with the node's context)
 	apiWG.Wait()
-	w.Close()
 }
 
 func c25Requestor(p rt.Params, rep *rt.Reporter, ci int) {
@@ -606,6 +606,6 @@ func c25Requestor(p rt.Params, rep *rt.Reporter, ci int) {
 	}
 	w.Fab.Link(A.ID, S.ID).Unstall()
 	apiCancel()
+	w.Close() // also ends API calls that wait on a blocked manager (they only give up with the node's context)
 	apiWG.Wait()
-	w.Close()
 }
